@@ -298,6 +298,35 @@ def caseChain? (s : String) : Option (List Node) :=
 def fieldOf (pre : String) (parts : List String) : Option String :=
   (parts.filterMap (stripPre pre)).head?
 
+
+/-! net: `Endpoint::connect()` / `connect_lazy()` against a real socket -/
+
+def nop? (c : Char) : Option NOp :=
+  if c = 'u' then some .up else if c = 'k' ∨ c = 'x' then some .down else if c = 'c' then some .call else none
+
+def nresTok : NRes → String
+  | .resp g => s!"c:resp{g}"
+  | .error code => s!"c:err{code}"
+  | .hang => "c:hang"
+  | .garbled => "c:garbled"
+
+def parseNRes (t : String) : Option NRes :=
+  if t = "c:hang" then some .hang
+  else if t = "c:garbled" then some .garbled
+  else match natAfter "c:resp" t with
+    | some g => some (.resp g)
+    | none => (natAfter "c:err" t).map .error
+
+def nbuildTok : NBuild → String
+  | .ok => "build:ok"
+  | .error code => s!"build:err{code}"
+  | .hang => "build:hang"
+
+def parseNBuild (t : String) : Option NBuild :=
+  if t = "build:ok" then some .ok
+  else if t = "build:hang" then some .hang
+  else (natAfter "build:err" t).map .error
+
 def handle (case obs : List String) : String × String :=
   match case with
   | ["unit", m, envS, opsS] =>
@@ -375,6 +404,25 @@ def handle (case obs : List String) : String × String :=
             verdict (Spec.Reconnect.clauses isLazy [] [.call, .call] trace ++
               (es.map fun (c, _, w) => Spec.Reconnect.classClauses w c).flatten)
       (model, v)
+    | _, _ => bad
+  | ["net", tr, m, script] =>
+    if tr ≠ "tcp" ∧ tr ≠ "uds" then bad else
+    match mode? m, script.splitOn "b" with
+    | some isLazy, [preS, postS] =>
+      match parseAll (fun s => (s.toList.head?).bind nop?) (preS.toList.map (String.singleton ·)),
+            parseAll (fun s => (s.toList.head?).bind nop?) (postS.toList.map (String.singleton ·)) with
+      | some pre, some post =>
+        if pre.contains .call then bad else
+        let t := Net.run isLazy pre post
+        let model := String.intercalate " " (nbuildTok t.build :: t.evs.map nresTok)
+        let v := match obs with
+          | b :: evs =>
+            match parseNBuild b, parseAll parseNRes evs with
+            | some br, some rs => verdict (Spec.Reconnect.netClauses isLazy pre post { build := br, evs := rs })
+            | _, _ => "fail:unparsable-observation"
+          | [] => "fail:unparsable-observation"
+        (model, v)
+      | _, _ => bad
     | _, _ => bad
   | ["e2d", m, et, outsS, opsS] =>
     if et ≠ "-" ∧ et ≠ "z" ∧ et ≠ "n" ∧ et ≠ "s" ∧ et ≠ "l" then bad else
